@@ -432,6 +432,13 @@ def unit_distinct_count_init():
         names = Ref("NameTuple"); st.heap[names.oid] = {"expr": args[0]}
         code = Ref("code"); st.heap[code.oid] = {"co_names": names}; st.ghost["compiled"] = args[0]
         yield st, code
+    def m_validated_expression(ex, st, fn, args, kw):
+        # contract of DistinctCountCheck._validated_expression (audited natively: checks.count-expression-audit): the expression itself if it refers only to the count and is built
+        # only from numbers, comparisons, arithmetic and boolean operators; an InterfaceError otherwise (that includes text Python cannot parse)
+        e = lift(args[0]).z; st.ghost["compiled"] = args[0]
+        for s2, b in ex.fork(st, Sym(BOOL, other_names(ex, e))):
+            if b: s2.ghost["compile_failed"] = True; yield from raise_new(ex, s2, "InterfaceError")
+            else: yield s2, args[0]
     def m_set(ex, st, fn, args, kw):
         if not (len(args) == 1 and isinstance(args[0], Ref) and args[0].cls == "NameTuple"): raise Unsupported("set() of something else than the names of the compiled expression")
         r = Ref("NameSet"); st.heap[r.oid] = {"expr": st.heap[args[0].oid]["expr"], "discarded": []}; yield st, r
@@ -465,13 +472,33 @@ def unit_distinct_count_init():
                 expect=["return", "InterfaceError"], raises_only_props=["C05", "C09", "C10"])
         return {"contract": c, "callees": {"checks.generated_tokens": ModelContract(m_generated_tokens), "_tools.generated_tokens": ModelContract(m_generated_tokens), "ref:TokenIter.__next__": tok_next,
                                            "fields.field_name_index": ModelContract(m_field_name_index), "builtin:eval": m_eval,
-                                           "builtin:compile": m_compile, "builtin:set": m_set, "ref:NameSet.discard": m_discard, "reftruth:NameSet": nameset_truth, "builtin:sorted": m_sorted,
-                                           "_tools.human_readable_list": ModelContract(m_hrl)},
+                                           "checks.DistinctCountCheck._validated_expression": ModelContract(m_validated_expression)},
                 "assumptions": ["A-TOK (first token): a leading NAME token that ends on line 1 ends at column c > 0 with rule[c-len(name):c] == name (audited: checks.A-TOK-first-token)",
                                 "A-EVAL: eval(expr, {}, {'count': n}) is an abstract function of (expr, n): a bool, another value or an exception",
-                                "A-COMPILE: compile(expr, name, 'eval') raises SyntaxError / ValueError or returns a code object; 'its co_names minus count is non-empty' is the uninterpreted predicate refers_to_names_other_than_count(expr) (audited natively: checks.DistinctCount rules sweep)",
+                                "DistinctCountCheck._validated_expression is used through its contract: it returns the expression unless refers_to_names_other_than_count(expr) - the uninterpreted predicate 'not a plain expression over the count' (names, calls, lambdas, attributes, text that cannot be parsed); audited natively by checks.count-expression-audit",
                                 "fields.field_name_index is used through its verified contract (fields.field_name_index)"]}
     return ProofUnit("checks.DistinctCountCheck.__init__", "DistinctCountCheck.__init__: field to count = leading name of the rule (declared), expression = 'count' + rest, test evaluation, fresh state", ["C05", "C09", "C10"], make, None)
+
+
+def unit_audit_count_expression():
+    """native audit of DistinctCountCheck._validated_expression and the bool test of the constructor: which rules are accepted"""
+    def run(ctx):
+        from cutplace import checks, errors
+        ok = ["kind < 3", "kind<=2", "kind == 0", "kind != 1", "kind >= 2 and count < 5", "kind > 3 or count == 0", "kind + 1 < 5", "kind * 2 <= 10", "kind < 3 and not count > 7", "kind >= 1", "kind < 1e3", "kind < +5", "kind < 5 - 1"]
+        bad = ["kind", "kind + 1", "kind < 3 or nosuch > 1", "kind < id", "kind < 3 or (lambda: 1)()", "kind < len('a')", "kind < 3 if count else True", "kind < count.real", "kind < [1][0]", "kind <", "kind < 3;", "kind = 3",
+               "kind < 3 or exit()", "kind < 3 or __import__('os')", "kind == 0 or (lambda: exit(4))()", "kind" + " + 1" * 3000 + " > 0", "kind < 'a'", "kind in (1, 2)", "kind < {1: 2}[1]", "kind < (yield)", "kind < (x := 3)", "kind\x00 < 3"]
+        def cases():
+            for r in ok: yield (r, True)
+            for r in bad: yield (r, False)
+        def check(c):
+            rule, want = c
+            try: checks.DistinctCountCheck("d", rule, ["kind", "id"]); got = True
+            except errors.InterfaceError: got = False
+            except BaseException as e: return {"expected": "accepted or InterfaceError", "observed": "%s: %s" % (type(e).__name__, str(e)[:80])}
+            return None if got == want else {"expected": "rule %s" % ("accepted" if want else "refused"), "observed": "accepted" if got else "refused"}
+        return [sweep("checks/DistinctCount rules: a comparison of the count built from numbers, arithmetic, and / or / not - nothing else", cases(), check, "audit", "13 rules to accept, 22 to refuse (names, calls, lambdas, attributes, subscripts, conditionals, no comparison, not parseable, thousands of operands)",
+                      describe=lambda c: {"rule": c[0][:80]}, function="checks.DistinctCountCheck.__init__ / _validated_expression", unit="checks.count-expression-audit", props=["C09", "C10", "C05"])]
+    return NativeUnit("checks.count-expression-audit", "audit of the contract of DistinctCountCheck._validated_expression (what counts as a plain expression over the count)", ["C09", "C10", "C05"], run, kind="audit")
 
 
 def unit_audit_first_token():
